@@ -138,6 +138,13 @@ func c01(args []string) {
 			emitJSON("FAIL", "", map[string]any{"kind": "encoder-without-usable-destination", "call": k, "panic": fmt.Sprint(p), "err": fmt.Sprint(err)})
 		}
 	}
+	// an encoder on a plain destination (data size computed by a dry run) used again after a call that failed DURING the dry run
+	// (context cancelled before or between messages; a value the caller's own validator let through that cannot be marshalled):
+	// the next accepted file must reach the destination, byte for byte what a fresh encoder writes
+	for k := 0; k < 12; k++ {
+		ec, files := r.genChain(true)
+		c01EncoderAfterFailedDryRun(ec, files[0], k)
+	}
 	// the stream encoder asked to complete a sequence no message was written for (at the start, between and after sequences, twice in
 	// a row, on every destination kind and buffer size): it must refuse, and whatever it answers the destination keeps exactly the
 	// well-formed sequences completed so far
@@ -302,6 +309,59 @@ func withoutDeclarations(f encFile) (encFile, bool) {
 		out.msgs = append(out.msgs, m)
 	}
 	return out, uses && len(out.msgs) > 0
+}
+
+// passValidator: a caller-supplied message validator that lets everything through (encoder.WithMessageValidator).
+type passValidator struct{}
+
+func (passValidator) Validate(*proto.Message) error { return nil }
+func (passValidator) Reset()                        {}
+
+// c01EncoderAfterFailedDryRun: see the call site.  how%3: 0, 1 = EncodeWithContext under a context already cancelled (followed by
+// Encode resp. EncodeWithContext), 2 = an unmarshallable value behind a pass-through validator.
+func c01EncoderAfterFailedDryRun(ec encCfg, f encFile, how int) {
+	opts := ec.options()
+	if how%3 == 2 {
+		opts = append(opts, encoder.WithMessageValidator(passValidator{}))
+	}
+	var fresh bytes.Buffer
+	good := func() *proto.FIT {
+		return &proto.FIT{FileHeader: proto.FileHeader{Size: f.hsize, ProtocolVersion: f.proto, ProfileVersion: f.profile}, Messages: cloneMessages(f.msgs)}
+	}
+	if err := encoder.New(&fresh, opts...).Encode(good()); err != nil {
+		return
+	}
+	var buf bytes.Buffer
+	enc := encoder.New(&buf, opts...)
+	var first error
+	switch how % 3 {
+	case 0, 1:
+		ctx, cancel := context.WithCancel(context.Background())
+		cancel()
+		first = enc.EncodeWithContext(ctx, good())
+	case 2:
+		bad := good()
+		fld := factory.CreateField(mesgnum.Record, fieldnum.RecordHeartRate) // no value: proto.Value{} cannot be marshalled
+		bad.Messages = append(bad.Messages, proto.Message{Num: mesgnum.Record, Fields: []proto.Field{fld}})
+		first = enc.Encode(bad)
+	}
+	stat("encoder_after_failed_dry_run", 1)
+	if first == nil {
+		return // not a failing call under this configuration: nothing to observe
+	}
+	left := buf.Len()
+	var second error
+	if how%2 == 0 {
+		second = enc.Encode(good())
+	} else {
+		second = enc.EncodeWithContext(context.Background(), good())
+	}
+	if left != 0 || second != nil || !bytes.Equal(buf.Bytes(), fresh.Bytes()) {
+		emitJSON("FAIL", "", map[string]any{"kind": "encoder-after-failed-dry-run", "how": []string{"context cancelled before the call", "context cancelled before the call", "unmarshallable value behind a pass-through validator"}[how%3],
+			"first_call_error": first.Error(), "bytes_left_by_the_failed_call": left, "second_call_error": fmt.Sprint(second),
+			"second_call_wrote": buf.Len() - left, "fresh_encoder_writes": fresh.Len(), "cfg": ec.coq(), "input": coqIMesgs(f.msgs),
+			"expected": "the second call returns nil and the destination holds exactly the bytes a fresh encoder writes for the same file"})
+	}
 }
 
 // c01StreamEmptyCompletion: WriteMessage*/SequenceCompleted histories in which SequenceCompleted is also called with no message
